@@ -36,27 +36,63 @@ THEOREMS = [
         "and the staged text has a NEW junk entry (the comment line fused onto the section line)"),
     (M, "C04.append_reparses_ini_partial", "re-parse, clean append (.ini): `[name]` + printed ini records (value = anything but newline) + appended reference entries parse to the section, "
         "the localized records and the reference records, no junk; no backslash hypothesis needed"),
+    # ---- round 4: bytes
+    (M, "C04.clean_bytes_identical", "BYTES: no skips and nothing missing: the staged file is the l10n file byte for byte, whatever the bytes are (CRLF, CR, BOM, ill-formed UTF-8, NUL), for every capability set that stages"),
+    (M, "C04.copy_only_bytes", "BYTES: CAN_COPY (.inc, unknown types, add/remove): the l10n bytes iff clean, else the reference bytes"),
+    (M, "C04.append_bytes_prefix", "BYTES: nothing cut, entries appended: staged = l10n BYTES ++ encode(trailing block): the localized part is not re-encoded"),
+    (M, "C04.append_bytes_prefix_total", "… and the block always encodes when the reference entries are decoded text (scalar values)"),
+    (M, "C04.skip_bytes_spec", "BYTES: something cut: staged = encode(chunks(readFile(l10n bytes)) [++ trailing]) with readFile = UTF-8/replace + universal newlines"),
+    (M, "C04.encode_readFile_total", "the decoder only yields scalar values: the strict encoder never raises on decoded text (no UnicodeEncodeError in merge)"),
+    (M, "C04.skip_only_bytes", "BYTES, skip-only formats: the staged file encodes a subsequence of the decoded l10n text and always encodes"),
+    (M, "C04.encode_readFile_id_iff", "a rewrite is the identity on bytes, encode(readFile b) = b, IFF b is the UTF-8 encoding of a CR-free text (well-formed UTF-8 without CR)"),
+    (M, "C04.readFile_encode", "readFile(encode t) = t for CR-free encodable text"),
+    (M, "C04.rewrite_not_identity_witness", "negation witnesses: CRLF -> LF, FF -> U+FFFD, lone CR -> LF, truncated E2 82 at EOF -> one U+FFFD; BOM and NUL survive"),
+    (M, "C04.crlf_rewrite_witness", "the same CRLF file is staged untouched when clean and LF-normalised as soon as one span is cut"),
+    # ---- round 4: quiet levels
+    (M, "C04.compareMerge_verdicts_only", "compare+merge at ANY quiet level: staged bytes and missing/report counts are those of the entries the filters' verdicts select (error merged, warning counted as report, ignore dropped)"),
+    (M, "C04.merged_bytes_quiet_independent", "two runs that differ only in the quiet level stage the same bytes (Observer model's notify return value composed with the merge model)"),
+    (M, "C04.compareMerge_returns", "… and both return (no exception from the observers) for files without a legacy module"),
+    (M, "C04.no_filter_merges_all", "Observer(filter=None): every missing entity is merged, at every quiet level"),
+    # ---- round 4: several cuts, DTD, .inc, Android
+    (M, "C04.merge_cuts_any_order", "ALL formats: l10n text = kept and (non-empty) cut pieces, skips = ANY permutation of the cut spans: the chunk loop writes exactly the kept pieces (+ block in file order for mergeable formats)"),
+    (M, "C04.merge_skip_order_irrelevant", "two orders of the same skips give the same outcome, for every capability value"),
+    (M, "C04.multi_cut_reparses_properties_partial", "several cuts (.properties): records, records with check errors, garbage lines (each followed by a record or EOF): one junk entry per garbage line (locality), "
+        "every skip is a reported span, and for ANY order of the skips the staged text = kept records (blank line per cut record) + newline + missing + replaced reference records; parses to exactly these, no junk"),
+    (M, "C04.multi_cut_reparses_dtd_partial", "DTD: printed entities `<!ENTITY k \"v\">`, any number of whole-entity cuts in any order and/or appended missing entities: staged text parses to exactly the kept, missing and replaced entities, no junk"),
+    (M, "C04.f17_unstable_witness", "negation witness (finding F17): DTD value opened with an apostrophe and never closed: the appended entity is swallowed (ONE entity 0..29)"),
+    (M, "C04.inc_staging_reparses_partial", ".inc (CAN_COPY): a localization with any skip/missing entry is staged as the reference BYTES; if these encode a CR-free printed list of #define records the staged file parses to exactly them"),
+    (M, "C04.android_merge_spec", "Android, complete: no skip -> byte copy (missing strings not added); only junk skips (span (0,0)) -> whole text written back; one entity skip (span None) -> text written TWICE; >= 2 skips with an entity -> TypeError"),
+    (M, "C04.android_bytes_spec", "Android on bytes: the junk case re-encodes the decoded text, the entity case doubles it"),
 ]
 PARTIAL = [
-    "re-parse claims (staged file re-compares with no junk / nothing missing / localized values kept) are PROVED only for the printed class of C02 "
-    "(`.properties`: safe records `key=value`, no comments/escapes/continuation lines/other layouts; `.ini`: `[name]` + records `key=value`), for the clean append, "
-    "the cut of ONE whole-line junk entry and the cut of ONE entity; on that class the decidable hypothesis SpliceStable holds, and the known findings F4/F14 are "
-    "kernel-checked inputs with SpliceStable = false on which the claim fails. NOT proved: arbitrary localized texts satisfying SpliceStable, several cuts at once "
-    "(needs `sortSkips` of a permutation), dtd, 'no check errors' of the re-comparison (checks are C06/C07); these are decided by executing the real code (oracle), "
-    "which also replays the theorem class (`thm-*` cases: predicted staged text and predicted entities compared with the real run)",
+    "re-parse claims (staged file re-compares with no junk / nothing missing / localized values kept) are PROVED only for the printed classes of C02 "
+    "(`.properties`: safe records `key=value`, no comments/escapes/continuation lines/other layouts, plus garbage lines; `.ini`: `[name]` + records `key=value`, append only; "
+    "`.dtd`: `<!ENTITY k \"v\">` lines without `&` and `\"` in values, whole-entity cuts and appends, no junk cuts; `.inc`: the staged reference). Round 4 removed the "
+    "ONE-cut restriction: any number of junk/entity cuts in any order (`sortSkips` of a permutation is proved). The known findings F4/F14/F17 are kernel-checked inputs "
+    "on which the claim fails. NOT proved: arbitrary localized texts satisfying SpliceStable (comments, escapes, continuation lines), ini cuts, DTD junk cuts, "
+    "'no check errors' of the re-comparison (checks are C06/C07); these are decided by executing the real code (oracle), "
+    "which also replays the theorem classes (`thm-*` cases: predicted staged text and predicted entities compared with the real run)",
+    "bytes: the decoder/encoder pair is a model of CPython's UTF-8 codec (errors='replace') and universal newlines, tied by the `c04.decode`/`c04.encode` streams, not proved "
+    "against CPython; `compareMerge` covers the missing-entity branch of `compare` (not the obsolete/changed/check branches, whose skips are inputs of the model)",
 ]
 TRUSTED = [
     "hand-written model CLModel/Compare/Merge.lean of ContentComparer.merge (tied by the `merge` correspondence on the arguments the real code passes)",
+    "hand-written model CLModel/Compare/MergeBytes.lean: UTF-8 decoder (errors=replace) + universal newlines + strict encoder around the text model, and the "
+    "missing-entity loop composed with the Observer model (tied by c04.decode / c04.encode / c04.mergeb on real files and direct merge calls, c04.qmerge on real comparisons with quiet 0-4 and filters)",
     "file system effects are observed with sys.addaudithook + directory listings + input hashes (oracle side), not modelled",
 ]
 ASSUMPTIONS = ["reference validates without errors and warnings against itself; localization has no duplicate keys (cases violating the precondition are skipped and counted)"]
 LEVEL_TEXT = ("Lean 4 theorems about the splice algorithm of l10n-merge for ALL texts/skip lists (text spec, subsequence property for skip-only "
-              "formats, byte-identical staging of clean files, copy-only strategy, capability table regenerated from the source); the model is "
-              "tied to ContentComparer.merge by replaying the exact arguments of real runs; for printed .properties/.ini texts the staged text is proved to "
-              "re-parse to exactly the expected entities without junk (append / one junk cut / one entity cut); the end-to-end claims (re-compare is clean and "
-              "complete, per-key values, inputs untouched, nothing written outside the merge path) are decided on the real code per generated case")
-LEVEL_NOTE = ("trusted: Lean kernel, merge model correspondence, parser model correspondence (C01/C02), audit-hook observation; re-parse stability is proved "
-              "for printed .properties/.ini texts only (append, one junk cut, one entity cut) under the decidable SpliceStable hypothesis; F4/F14 are its negations, F5 is outside")
+              "formats, byte-identical staging of clean files, copy-only strategy, capability table regenerated from the source), now on BYTES "
+              "(decode -> splice -> encode; clean files byte-identical for all byte strings; encode.decode = id iff well-formed UTF-8 without CR) and composed with the "
+              "Observer model (staged bytes independent of the quiet level, only error-verdict strings merged); any number of cuts in any order; the model is "
+              "tied to ContentComparer.merge by replaying the exact arguments of real runs and by direct calls on files with CRLF/CR/BOM/ill-formed bytes; for printed "
+              ".properties/.ini/.dtd/.inc texts the staged text is proved to re-parse to exactly the expected entities without junk; Android is characterised completely; "
+              "the end-to-end claims (re-compare is clean and complete, per-key values, inputs untouched, nothing written outside the merge path, also through "
+              "compareProjects with a merge stage) are decided on the real code per generated case")
+LEVEL_NOTE = ("trusted: Lean kernel, merge / byte-merge / observer model correspondences, parser model correspondence (C01/C02), audit-hook observation; re-parse stability is proved "
+              "for printed .properties (any cuts), .dtd (entity cuts, appends), .ini (append), .inc (copy) texts only; F4/F14/F17 are kernel-checked negations, F5 is characterised exactly (android_merge_spec); "
+              "observed outside the property text: --clobber-merge raises TypeError (unhashable Matcher) on the unchanged tree")
 TECHNIQUE = "Lean 4 proof over a model of the merge splice + differential correspondence + end-to-end oracle on real merges"
 
 FORMATS = ["properties", "dtd", "ini", "inc", "ftl", "po", "android"]
@@ -95,6 +131,7 @@ def gen_cases(ctx):
                 l10n += tail
             cases.append({"fmt": fmt, "ref": R.print_file(fmt, recs), "l10n": l10n, "mode": "compare", "tag": "directed-tail"})
     cases.extend(theorem_class_cases(rng, max(12, per // 8)))
+    cases.extend(theorem_multi_cases(ctx.rng("c04-multi"), max(16, per // 12)))
     for i in range(max(3, per // 10)):
         recs, kinds = R.gen_reference("unknown", rng) if False else ([("k%d" % j, "v", None) for j in range(3)], None)
         txt = R.print_file("unknown", recs)
@@ -241,7 +278,8 @@ def oracle(case, r):
     errkeys = {keystr(k) for k in v.get("l10n_error_keys", [])}
     lval = {keystr(e[0]): e[1] for e in lp["entities"]}
     rval = {keystr(e[0]): e[1] for e in rp["entities"]}
-    clean = not lp["junk"] and not errkeys and all(k in lval for k in rkeys)
+    req0 = case.get("required")
+    clean = not lp["junk"] and not errkeys and all(k in lval for k in rkeys if req0 is None or k in req0)
     if merged is None:
         bad.append(("no merge file was staged", None))
         return bad
@@ -317,6 +355,8 @@ def oracle(case, r):
     mp = v.get("merged_parse") or {"entities": [], "junk": []}
     if case.get("expect") is not None:
         bad.extend(check_expect(case, v, merged, mp))
+    if case.get("expect_exact") is not None:
+        bad.extend(check_expect_exact(case, v, merged, mp))
     s2 = summary_of(rep2) if rep2 else {}
     if mp["junk"] or any("Unparsed content" in str(d.get("error", "")) for d in flat_details(rep2 or {})):
         bad.append(("staged file has unparsed content: %r" % (mp["junk"][:1],), fid))
@@ -326,10 +366,13 @@ def oracle(case, r):
     mval = {}
     for e in mp["entities"]:
         mval.setdefault(keystr(e[0]), []).append(e[1])
+    required = case.get("required")          # keys the filters want (verdict "error"); None = all
     if fmt in R.MERGEABLE:
         if s2.get("missing", 0) > 0:
             bad.append(("staged file of a mergeable format still has missing strings", fid))
         for k in rkeys:
+            if required is not None and k not in lval and k not in required:
+                continue                     # the filter does not ask for this string: it need not be merged
             exp = lval[k] if (k in lval and k not in errkeys) else rval[k]
             got = mval.get(k)
             if got is None:
@@ -380,12 +423,640 @@ def expected_model(case, v, call):
     return "written " + C.enc(mb.decode("utf-8", "replace"))
 
 
+# ================================================================= round 4: branches no generated pair reaches otherwise
+
+def run_special(ctx, out):
+    """read errors (a path that is a directory), references with duplicates / junk (warning branches of `compare`):
+    executed for the tie (impl_coverage); judged only on what the property states for them: no exception escapes, the
+    inputs stay untouched, nothing appears outside the merge path"""
+    rng = ctx.rng("c04-special")
+    cases = []
+    for fmt in ["properties", "dtd", "ini", "inc", "ftl", "po", "android"]:
+        recs, kinds = R.gen_reference(fmt, rng, n=3)
+        ref = R.print_file(fmt, recs)
+        cases.append((fmt, ref, ref, "compare", {"ref_is_dir": True}, True, "ref-unreadable"))
+        cases.append((fmt, ref, ref, "compare", {"l10n_is_dir": True}, True, "l10n-unreadable"))
+        cases.append((fmt, ref, None, "add", {"ref_is_dir": True}, fmt in ("ftl", "po", "android"), "add-ref-unreadable"))
+        if fmt in ("properties", "ini", "dtd"):
+            dup = R.print_file(fmt, recs + [recs[0]]) + R.GARBAGE[fmt][0]
+            cases.append((fmt, dup, R.print_file(fmt, recs[1:]), "compare", {}, True, "ref-dup-junk"))
+    res = pool.pmap("impl.merge", "impl_compare_merge", [[f, r, l, m, False, wm, o] for f, r, l, m, o, wm, t in cases], timeout=10.0, batch=4)
+    for (f, rt, lt, m, o, wm, tag), r in zip(cases, res):
+        out.evaluations += 1
+        out.count("special.%s" % tag)
+        inp = {"fmt": f, "ref": rt, "l10n": lt, "mode": m, "opts": o, "tag": tag}
+        if "exc" in r:
+            if tag == "ref-dup-junk":
+                continue            # precondition (clean reference) not met
+            out.violations.append({"what": "%s %s: raised %s: %s" % (f, tag, r["exc"], r.get("msg")), "input": inp, "finding": None})
+            continue
+        v = r["r"]
+        for msg in generic_fs_oracle(v)[:2]:
+            out.violations.append({"what": "%s %s: %s" % (f, tag, msg), "input": inp, "finding": None})
+        if tag.endswith("unreadable") and tag != "add-ref-unreadable":
+            if v["merged"] is not None:
+                out.violations.append({"what": "%s %s: a file was staged although an input could not be read" % (f, tag), "input": inp, "finding": None})
+            if not any("error" in d for d in flat_details(v["report"])):
+                out.disagreements.append({"op": "read-error-report", "case": inp, "impl": json.dumps(v["report"])[:300]})
+
+
+# =============================================================================================== round 4: bytes
+
+BYTE_SHAPES = ["crlf", "cr", "mixed", "bom", "bad-utf8", "latin1", "trunc", "nul", "surrogate"]
+BAD_SEQS = [b"\xff", b"\xc3", b"\x80", b"\xc0\xaf", b"\xe2\x82", b"\xf0\x9f\x98", b"\xf5", b"\xe9"]
+
+
+def to_latin(b):
+    return b.decode("latin-1")
+
+
+def byte_variant(text, shape, rng):
+    """the UTF-8 bytes of `text` with one class of byte-level peculiarity"""
+    b = text.encode("utf-8")
+    if shape == "crlf":
+        return b.replace(b"\n", b"\r\n")
+    if shape == "cr":
+        return b.replace(b"\n", b"\r")
+    if shape == "mixed":
+        return b"".join(rng.choice([b"\n", b"\r\n", b"\r"]) if bytes([c]) == b"\n" else bytes([c]) for c in b)
+    if shape == "bom":
+        return b"\xef\xbb\xbf" + b
+    if shape == "trunc":
+        return b + rng.choice([b"\xe2\x82", b"\xc3", b"\xf0\x9f"])
+    if shape == "nul":
+        seq = b"\x00"
+    elif shape == "surrogate":
+        seq = b"\xed\xa0\x80"
+    elif shape == "latin1":
+        if "ö".encode() in b and rng.random() < 0.6:
+            return b.replace("ö".encode(), b"\xf6")
+        seq = b"\xe9"
+    else:
+        seq = rng.choice(BAD_SEQS)
+    # inside a value if there is one (after an '=' or a quote), else anywhere
+    spots = [i + 1 for i, c in enumerate(b) if c in (0x3d, 0x22, 0x3e)] or list(range(len(b) + 1))
+    pos = rng.choice(spots) if rng.random() < 0.8 else rng.randrange(len(b) + 1)
+    return b[:pos] + seq + b[pos:]
+
+
+def gen_byte_cases(ctx):
+    rng = ctx.rng("c04-bytes")
+    cases = []
+    per = ctx.n(54, 600)
+    for fmt in FORMATS:
+        for i in range(per):
+            recs, kinds = R.gen_reference(fmt, rng)
+            ref = R.print_file(fmt, recs)
+            clean = rng.random() < 0.5
+            l10n, plan = R.derive_l10n(fmt, recs, kinds, rng, clean=clean)
+            shape = BYTE_SHAPES[i % len(BYTE_SHAPES)]
+            lb = byte_variant(l10n, shape, rng)
+            if rng.random() < 0.3:
+                lb = lb.replace(b"\r\n", b"\n").replace(b"\n", b"\r\n")        # combined with CRLF line ends
+            rb = ref.encode("utf-8")
+            if rng.random() < 0.25:
+                rb = byte_variant(ref, rng.choice(["crlf", "bom", "mixed"]), rng)
+            cases.append({"fmt": fmt, "ref": to_latin(rb), "l10n": to_latin(lb), "mode": "compare", "bytes": True,
+                          "tag": "bytes-%s-%s" % (shape, "clean" if clean else "edited")})
+    for i in range(max(4, per // 6)):
+        txt = "k%d: v\n" % i
+        b = byte_variant(txt * 2, BYTE_SHAPES[i % len(BYTE_SHAPES)], rng)
+        cases.append({"fmt": "unknown", "ref": to_latin(txt.encode()), "l10n": to_latin(b), "mode": "compare", "bytes": True,
+                      "tag": "bytes-unknown"})
+    return cases
+
+
+def py_decode(latin):
+    """what Parser.readFile must produce, computed independently (CPython codec + a regex)"""
+    import re
+    return re.sub("\r\n?", "\n", latin.encode("latin-1").decode("utf-8", "replace"))
+
+
+def mergeb_line(call, l10n_latin, ref_latin, mf=True):
+    toks = ["c04.mergeb", "1" if mf else "0", str(call["caps"]), C.enc(l10n_latin), C.enc(ref_latin), str(len(call["skips"]))]
+    for s0, e0, isj, ra in call["skips"]:
+        toks += [str(-1 if s0 is None else s0), str(-1 if e0 is None else e0), "1" if isj else "0", C.enc(ra or "")]
+    toks.append(str(len(call["missing"])))
+    for m in call["missing"]:
+        toks.append(C.enc(m or ""))
+    return " ".join(toks)
+
+
+def fileout(merged_latin, exc=None):
+    if exc:
+        return exc
+    return "nofile" if merged_latin is None else "bytes " + C.enc(merged_latin)
+
+
+def generic_fs_oracle(v):
+    """inputs untouched, nothing written outside <root>/merge (direct calls and byte cases)"""
+    bad = []
+    if not v["inputs_unchanged"]:
+        bad.append("an input file was modified")
+    root = v["root"]
+    for ev in v["events"]:
+        for p in ev[1:]:
+            if p.startswith(root) and not p.startswith(os.path.join(root, "merge")) and ev[0] != "shutil.copyfile":
+                bad.append("write outside the merge path: %s" % ev)
+        if ev[0] == "shutil.copyfile" and len(ev) >= 3 and not ev[2].startswith(os.path.join(root, "merge")):
+            bad.append("copy to a target outside the merge path: %s" % ev)
+    for p in v["new_paths"]:
+        if not p.startswith("merge"):
+            bad.append("new path outside the merge dir: %s" % p)
+    return bad
+
+
+def run_bytes(ctx, out):
+    """files with CRLF / CR / BOM / ill-formed UTF-8 / NUL on disk: the property oracle on bytes, and the byte-level model"""
+    cases = gen_byte_cases(ctx)
+    res = pool.pmap("impl.merge", "impl_compare_merge",
+                    [[c["fmt"], c["ref"], c["l10n"], c["mode"], True] for c in cases], timeout=10.0, batch=8)
+    lines, expect, idx = [], [], []
+    for i, (c, r) in enumerate(zip(cases, res)):
+        out.evaluations += 1
+        out.count("%s.%s" % (c["fmt"], c["tag"]))
+        bad = oracle(c, r)
+        if bad and bad[0][0] == "PRECONDITION":
+            out.count("precondition-not-met")
+            continue
+        for msg, fid in bad[:3]:
+            out.violations.append({"what": "%s (bytes on disk): %s" % (c["fmt"], msg), "input": c, "finding": fid})
+            out.count("violation." + (fid or "NEW"))
+        if "r" not in r:
+            continue
+        v = r["r"]
+        calls = v["merge_calls"]
+        if calls:
+            call = calls[-1]
+            if call["skips"] or call["missing"]:
+                out.nontrivial.add((c["fmt"], "bytes", v["merged"]))
+            # what the parser saw must be the independent decoding of the bytes on disk
+            if call["contents"] is not None and call["contents"] != py_decode(c["l10n"]):
+                out.disagreements.append({"op": "readFile", "case": c, "impl": call["contents"][:200], "model": py_decode(c["l10n"])[:200]})
+            if all(x is not None for x in call["missing"]) and all(x[3] is not None for x in call["skips"]):
+                lines.append(mergeb_line(call, c["l10n"], c["ref"], call["merge_file"]))
+                expect.append(fileout(v["merged"]))
+                idx.append(i)
+    model = C.run_driver_parallel(lines) if (ctx.model_ok and lines) else []
+    for l, e, m, i in zip(lines, expect, model, idx):
+        if e != m:
+            out.disagreements.append({"op": "c04.mergeb", "case": cases[i], "impl": e[:300], "model": m[:300]})
+    out.contracts["mergeb_replays"] = len(lines)
+
+
+# ========================================================================================== round 4: quiet + filters
+
+VERDICT_CHAR = {"error": "e", "warning": "w", "ignore": "i"}
+
+
+def combine(vs):
+    """ObserverList.notify: ignore if all ignore, error if any error, else the (single) other answer"""
+    if all(x == "ignore" for x in vs):
+        return "ignore"
+    return "error" if "error" in vs else "warning"
+
+
+def gen_quiet_cases(ctx):
+    rng = ctx.rng("c04-quiet")
+    cases = []
+    per = ctx.n(40, 500)
+    for fmt in ["properties", "dtd", "ini", "inc", "ftl", "android"]:
+        for i in range(per):
+            recs, kinds = R.gen_reference(fmt, rng, n=rng.randrange(2, 7))
+            ref = R.print_file(fmt, recs)
+            l10n, plan = R.derive_l10n(fmt, recs, kinds, rng, allow_junk=rng.random() < 0.5)
+            if i % 5 == 4:      # several strings missing, nothing else wrong
+                keep = [j for j in range(len(recs)) if rng.random() < 0.5]
+                l10n = R.print_file(fmt, [(recs[j][0], "L10N " + recs[j][1] if kinds[j] is None else recs[j][1], recs[j][2]) for j in keep])
+            nobs = 1 if rng.random() < 0.75 else 2
+            tables = []
+            for j in range(nobs):
+                if rng.random() < 0.2:
+                    tables.append(None)               # Observer(filter=None)
+                else:
+                    tables.append({k: rng.choice(["error", "error", "error", "warning", "ignore"]) for k, _, _ in recs})
+            q = rng.choice([1, 2, 2, 3, 4]) if i % 6 else 0
+            cases.append({"fmt": fmt, "ref": ref, "l10n": l10n, "mode": "compare", "tag": "quiet%d" % q,
+                          "quiet": q, "verdicts": tables, "keys": [k for k, _, _ in recs]})
+        for i in range(max(2, per // 10)):
+            # missing FILE with a filter verdict for the file itself
+            recs, kinds = R.gen_reference(fmt, rng)
+            cases.append({"fmt": fmt, "ref": R.print_file(fmt, recs), "l10n": None, "mode": "add", "tag": "quiet-missing-file",
+                          "quiet": rng.randrange(0, 5), "verdicts": [{}], "file_verdict": rng.choice(["error", "ignore", "warning"]),
+                          "keys": []})
+    return cases
+
+
+def key_verdict(case, k):
+    vs = [(t.get(k, "error") if t is not None else "error") for t in case["verdicts"]]
+    return combine(vs)
+
+
+def run_quiet(ctx, out):
+    cases = gen_quiet_cases(ctx)
+    args = []
+    for c in cases:
+        opts = {"quiet": c["quiet"], "verdicts": c["verdicts"], "baseline": True}
+        if "file_verdict" in c:
+            opts["file_verdict"] = c["file_verdict"]
+        args.append([c["fmt"], c["ref"], c["l10n"], c["mode"], False, True, opts])
+    res = pool.pmap("impl.merge", "impl_compare_merge", args, timeout=10.0, batch=8)
+    lines, expect, idx = [], [], []
+    for i, (c, r) in enumerate(zip(cases, res)):
+        out.evaluations += 1
+        out.count("%s.%s" % (c["fmt"], c["tag"]))
+        c["required"] = {keystr(k) for k in c["keys"] if key_verdict(c, k) == "error"}
+        bad = oracle(c, r)
+        if bad and bad[0][0] == "PRECONDITION":
+            out.count("precondition-not-met")
+            continue
+        for msg, fid in bad[:3]:
+            out.violations.append({"what": "%s (quiet=%d, filters): %s" % (c["fmt"], c["quiet"], msg),
+                                   "input": {k: (sorted(x) if isinstance(x, set) else x) for k, x in c.items()}, "finding": fid})
+            out.count("violation." + (fid or "NEW"))
+        if "r" not in r:
+            continue
+        v = r["r"]
+        # the Lean theorem merged_bytes_quiet_independent, on the real code: same staged bytes as with quiet = 0
+        if "merged_q0_exc" not in v and v.get("merged_q0") != v["merged"]:
+            what = "%s: the staged file depends on the quiet level (quiet=%d: %r, quiet=0: %r)" % (
+                c["fmt"], c["quiet"], (v["merged"] or "")[:120], (v.get("merged_q0") or "")[:120])
+            # a file that lacks strings the filters ask for is a violation of the property (reported above); the bare
+            # dependence is reported as a disagreement with the model
+            out.disagreements.append({"op": "quiet-independence", "case": {k: x for k, x in c.items() if k != "required"}, "impl": what})
+        if c["mode"] != "compare" or c["fmt"] == "inc":
+            if c["mode"] == "add":
+                out.nontrivial.add((c["fmt"], "add", c.get("file_verdict"), v["merged"] is None))
+            continue
+        calls = v["merge_calls"]
+        if not calls or v.get("ref_parse") is None or v.get("l10n_parse") is None:
+            continue
+        call = calls[-1]
+        lkeys = {keystr(e[0]) for e in v["l10n_parse"]["entities"]}
+        rents = v["ref_parse"]["entities"]
+        if len({keystr(e[0]) for e in rents}) != len(rents) or any(not isinstance(e[0], str) for e in rents):
+            continue
+        ents = [(e[0], e[2]) for e in rents if keystr(e[0]) not in lkeys]
+        if ents and any(key_verdict(c, k) != "error" for k, _ in ents):
+            out.nontrivial.add((c["fmt"], "quiet", c["quiet"], v["merged"]))
+        if any(x[3] is None for x in call["skips"]):
+            continue
+        spec = "".join("n" if t is None else "f" for t in c["verdicts"])
+        toks = ["c04.qmerge", str(c["quiet"]), spec, C.enc(R.FNAME[c["fmt"]]), str(call["caps"]), C.enc(to_latin(c["l10n"].encode("utf-8"))),
+                C.enc(to_latin(c["ref"].encode("utf-8"))), str(len(ents))]
+        for k, ra in ents:
+            vs = "".join(VERDICT_CHAR[(t.get(k, "error") if t is not None else "error")] for t in c["verdicts"])
+            toks += [C.enc(k), vs, C.enc(ra)]
+        toks.append(str(len(call["skips"])))
+        for s0, e0, isj, ra in call["skips"]:
+            toks += [str(-1 if s0 is None else s0), str(-1 if e0 is None else e0), "1" if isj else "0", C.enc(ra or "")]
+        so = (v.get("summary_obs") or [{}])[0]
+        lines.append(" ".join(toks))
+        expect.append("%s | missing=%d report=%d" % (fileout(v["merged"]), so.get("missing", 0), so.get("report", 0)))
+        idx.append(i)
+    model = C.run_driver_parallel(lines) if (ctx.model_ok and lines) else []
+    for l, e, m, i in zip(lines, expect, model, idx):
+        if e != m:
+            out.disagreements.append({"op": "c04.qmerge", "case": {k: x for k, x in cases[i].items() if k != "required"},
+                                      "impl": e[:300], "model": m[:300]})
+    out.contracts["qmerge_replays"] = len(lines)
+
+
+# ==================================================================================== round 4: direct calls of merge()
+
+def gen_direct_cases(ctx):
+    rng = ctx.rng("c04-direct")
+    cases = []
+    n = ctx.n(420, 5000)
+    snippets = ["a=1\n", "b = zwei\n", "# c\n", "öffnen=文字\n", "junk line\n", "<!ENTITY k \"v\">\n", "last=no newline"]
+    for i in range(n):
+        fmt = rng.choice(FORMATS)
+        text = "".join(rng.choice(snippets) for _ in range(rng.randrange(0, 5)))
+        lb = text.encode("utf-8")
+        if rng.random() < 0.6:
+            lb = byte_variant(text, rng.choice(BYTE_SHAPES), rng)
+        rb = "".join(rng.choice(snippets) for _ in range(rng.randrange(0, 3))).encode("utf-8")
+        if rng.random() < 0.3:
+            rb = rb.replace(b"\n", b"\r\n") + b"\xff"
+        tlen = len(py_decode(to_latin(lb)))
+        caps = rng.choice([0, 1, 2, 2, 3, 4, 5, 6, 6, 6, 7])
+        skips = []
+        shape = rng.random()
+        for j in range(rng.choice([0, 0, 1, 1, 2, 3, 4])):
+            if shape < 0.12:
+                s0 = e0 = None                                   # Android entities
+            elif shape < 0.2:
+                s0 = e0 = 0                                      # Android junk
+            else:
+                s0 = rng.randrange(0, tlen + 2)
+                e0 = s0 + rng.randrange(0, 6) if rng.random() < 0.9 else rng.randrange(0, tlen + 2)
+            ra = rng.choice(["r=R\n", "r=R", "ä=€", ""])
+            skips.append([s0, e0, rng.random() < 0.5 and s0 is not None, ra])      # Junk always has a span
+        if shape >= 0.2 and rng.random() < 0.5:
+            # disjoint spans in file order, then shuffled: the shape `compare` produces
+            cuts, pos = [], 0
+            for j in range(len(skips)):
+                a = pos + rng.randrange(0, 4)
+                b = a + rng.randrange(1, 5)
+                cuts.append((a, b))
+                pos = b
+            rng.shuffle(cuts)
+            for sk, (a, b) in zip(skips, cuts):
+                sk[0], sk[1] = a, b
+        missing = [rng.choice(["m=M\n", "m=M", "ü=1\n"]) for _ in range(rng.choice([0, 0, 1, 2]))]
+        cases.append({"fmt": fmt, "caps": caps, "l10n": to_latin(lb), "ref": to_latin(rb), "skips": skips, "missing": missing,
+                      "with_merge": rng.random() < 0.9})
+    return cases
+
+
+def direct_oracle(c, v):
+    bad = generic_fs_oracle(v)
+    staging = c["with_merge"] and c["caps"] != 0 and (c["caps"] & 3)
+    real_caps = c["caps"] in (1, 2, 6)          # the capability sets real parsers have
+    if staging and real_caps and not c["skips"] and not c["missing"] and v["merged"] != c["l10n"]:
+        bad.append("nothing to skip and nothing missing, but the staged file is not byte-identical to the l10n file")
+    if staging and c["caps"] == 1 and (c["skips"] or c["missing"]) and v["merged"] != c["ref"]:
+        bad.append("CAN_COPY with problems: staged file is not a byte copy of the reference")
+    return bad
+
+
+def run_direct(ctx, out):
+    """ContentComparer.merge itself, for every capability value and arbitrary spans, against the byte-level model"""
+    cases = gen_direct_cases(ctx)
+    res = pool.pmap("impl.merge", "impl_merge_direct",
+                    [[c["fmt"], c["caps"], c["l10n"], c["ref"], c["skips"], c["missing"], c["with_merge"]] for c in cases],
+                    timeout=10.0, batch=16)
+    lines, expect, idx = [], [], []
+    for i, (c, r) in enumerate(zip(cases, res)):
+        out.evaluations += 1
+        out.count("direct.caps%d%s" % (c["caps"], "" if c["with_merge"] else ".nomerge"))
+        if "r" not in r:
+            out.violations.append({"what": "direct merge call: adapter raised %s %s" % (r.get("exc"), r.get("msg")), "input": c, "finding": None})
+            continue
+        v = r["r"]
+        staging = c["with_merge"] and c["caps"] != 0 and (c["caps"] & 3)
+        bad = direct_oracle(c, v)
+        for msg in bad[:2]:
+            out.violations.append({"what": "direct merge call: %s" % msg, "input": c, "finding": None})
+            out.count("violation.NEW")
+        # beyond the property text (model-level): nothing at all happens without a merge path or with CAN_NONE, and
+        # capability sets without CAN_COPY and CAN_SKIP stage no file
+        spec_bad = []
+        if not (c["with_merge"] and c["caps"] != 0) and v["new_paths"]:
+            spec_bad.append("no merge path / CAN_NONE, but something was created: %s" % v["new_paths"])
+        if not staging and (v["merged"] is not None or any(not p.endswith("/") for p in v["new_paths"])):
+            spec_bad.append("neither CAN_COPY nor CAN_SKIP, but a file was staged: %s" % v["new_paths"])
+        for msg in spec_bad[:1]:
+            out.disagreements.append({"op": "direct-spec", "case": c, "impl": msg, "model": "Merge.merge = nothing (C04.no_merge_file_no_effect)"})
+        call = {"caps": c["caps"], "skips": c["skips"], "missing": c["missing"]}
+        lines.append(mergeb_line(call, c["l10n"], c["ref"], c["with_merge"]))
+        expect.append(fileout(v["merged"], v.get("exc")))
+        idx.append(i)
+        if v["merged"] is not None and c["skips"]:
+            out.nontrivial.add(("direct", c["caps"], v["merged"]))
+    model = C.run_driver_parallel(lines) if (ctx.model_ok and lines) else []
+    for l, e, m, i in zip(lines, expect, model, idx):
+        if e != m:
+            out.disagreements.append({"op": "c04.mergeb", "case": cases[i], "impl": e[:300], "model": m[:300]})
+    out.contracts["direct_merge_calls"] = len(lines)
+
+
+# ============================================================================= round 4: readFile / encoder on raw bytes
+
+def run_decode(ctx, out):
+    rng = ctx.rng("c04-decode")
+    alpha = [0x41, 0x3d, 0x0d, 0x0a, 0x80, 0xbf, 0xc0, 0xc1, 0xc2, 0xdf, 0xe0, 0xa0, 0x9f, 0xed, 0xef, 0xf0, 0x90, 0x8f, 0xf4,
+             0xf5, 0xff, 0x00, 0xe2, 0x82, 0xac, 0xbb, 0xbf, 0x20]
+    n = ctx.n(900, 12000)
+    datas = []
+    for i in range(n):
+        k = rng.randrange(0, 12)
+        datas.append(bytes(rng.choice(alpha) if rng.random() < 0.8 else rng.randrange(256) for _ in range(k)))
+    fmts = [FORMATS[i % len(FORMATS)] for i in range(n)]
+    res = pool.pmap("impl.merge", "impl_read_file", [[f, to_latin(d)] for f, d in zip(fmts, datas)], timeout=5.0, batch=64)
+    lines, expect, meta = [], [], []
+    for f, d, r in zip(fmts, datas, res):
+        out.evaluations += 1
+        if "r" not in r:
+            out.disagreements.append({"op": "readFile", "case": to_latin(d), "impl": str(r)[:200]})
+            continue
+        v = r["r"]
+        if v["contents"] != py_decode(to_latin(d)):
+            out.disagreements.append({"op": "readFile-vs-codec", "case": to_latin(d), "impl": v["contents"], "model": py_decode(to_latin(d))})
+        lines.append("c04.decode " + C.enc(to_latin(d)))
+        expect.append(C.enc(v["contents"]))
+        meta.append(("decode", f, d))
+        if v["contents_rc"] != d.decode("utf-8", "replace"):
+            out.disagreements.append({"op": "readContents-vs-codec", "case": to_latin(d), "impl": v["contents_rc"]})
+        lines.append("c04.decode8 " + C.enc(to_latin(d)))
+        expect.append(C.enc(v["contents_rc"]))
+        meta.append(("decode8", f, d))
+        lines.append("c04.encode " + C.enc(v["contents"]))
+        expect.append("EncodeError" if v["encoded"] is None else C.enc(v["encoded"]))
+        meta.append(("encode", f, d))
+        if "�" in v["contents"] or "\r" in to_latin(d):
+            out.nontrivial.add(("decode", v["contents"]))
+    model = C.run_driver_parallel(lines) if (ctx.model_ok and lines) else []
+    for l, e, m, mt in zip(lines, expect, model, meta):
+        if e != m:
+            out.disagreements.append({"op": "c04." + mt[0], "case": {"fmt": mt[1], "bytes": to_latin(mt[2])}, "impl": e[:200], "model": m[:200]})
+    out.count("decode.cases", n)
+    out.contracts["decode_encode_replays"] = len(lines)
+
+
+# ============================================================================ round 4: compareProjects (merge stage)
+
+def gen_project_cases(ctx):
+    rng = ctx.rng("c04-projects")
+    cases = []
+    for i in range(ctx.n(14, 120)):
+        loc = rng.choice(["de", "fr", "x-test"])
+        files, expect = {}, {}
+        nfiles = rng.randrange(1, 5)
+        for j in range(nfiles):
+            fmt = rng.choice(["properties", "dtd", "ini", "inc", "ftl", "unknown"])
+            rel = rng.choice(["", "sub/", "a/b/"]) + "f%d%s" % (j, os.path.splitext(R.FNAME[fmt])[1])
+            recs = [(R.key_for(fmt if fmt != "unknown" else "properties", n, rng), rng.choice(R.WORDS) + " %d" % n, None)
+                    for n in range(rng.randrange(1, 4))]
+            ref = R.print_file(fmt, recs)
+            shape = rng.choice(["clean", "clean-crlf", "missing-file", "obsolete-file", "missing-strings", "inc-dirty"])
+            u = lambda t: t.encode("utf-8")
+            clean_l = u(R.print_file(fmt, [(k, "L " + v, c) for k, v, c in recs]))
+            # (reference bytes | None, l10n bytes | None, expected staged bytes | None)
+            if shape == "clean-crlf":
+                rb, lb, eb = u(ref), clean_l.replace(b"\n", b"\r\n"), clean_l.replace(b"\n", b"\r\n")
+            elif shape == "missing-file":
+                rb, lb = u(ref), None
+                eb = u(ref) if fmt in ("properties", "dtd", "ini", "inc", "unknown") else None
+            elif shape == "obsolete-file":
+                rb, lb, eb = None, b"obsolete \xe9 content\r\n", b"obsolete \xe9 content\r\n"
+            elif shape == "inc-dirty" and fmt == "inc":
+                rb, lb = u(ref), u(R.print_file(fmt, recs[:-1]) if len(recs) > 1 else "#define other x\n")
+                eb = u(ref)
+            elif shape == "missing-strings" and fmt in R.MERGEABLE:
+                # the l10n bytes, a newline, the missing entries
+                keep = recs[:max(0, len(recs) - rng.randrange(1, len(recs) + 1))]
+                ltxt = R.print_file(fmt, [(k, "L " + v, c) for k, v, c in keep])
+                head = "[Strings]\n" if fmt == "ini" else ""
+                rl = ref[len(head):].splitlines(True)
+                rb, lb, eb = u(ref), u(ltxt), u(ltxt + "\n" + "".join(rl[len(keep):]))
+            else:
+                rb, lb, eb = u(ref), clean_l, clean_l
+            files[rel] = [None if rb is None else to_latin(rb), None if lb is None else to_latin(lb)]
+            expect[rel] = None if eb is None else to_latin(eb)
+        stale = [loc + "/old/stale.properties", loc + "/stale.txt", "zz/keep.properties", "keep.txt"]
+        cases.append({"locale": loc, "files": files, "expect": expect, "clobber": i % 2 == 1, "quiet": rng.randrange(0, 5),
+                      "stale": stale, "merge_tpl": rng.choice(["stage", "out/merge-dir"]), "all_locales": i % 5 == 0})
+    return cases
+
+
+def project_oracle(c, r, out=None):
+    """messages for one compareProjects case (independent expectation: what must be staged where, what survives)"""
+    if "r" not in r:
+        return ["adapter raised %s %s" % (r.get("exc"), r.get("msg"))]
+    v = r["r"]
+    bad = []
+    if "exc" in v:
+        if c["clobber"] and v["exc"].startswith("TypeError: unhashable type: 'Matcher'"):
+            # observed defect of the unchanged tree (NOTES-C04, round 4): `{_m.get("merge") for _m in files.matchers}` needs
+            # hashable Matchers, Matcher defines __eq__ without __hash__: --clobber-merge raises before anything is compared.
+            # The property text says nothing about clobbering, so this is recorded, not judged.
+            if out is not None:
+                out.count("projects.clobber-raises-unhashable-matcher")
+            if not v["inputs_unchanged"] or v["new_outside"] or any(k not in c["stale"] for k in v["staged"]):
+                bad.append("the failed clobber run modified inputs or wrote files")
+        else:
+            bad.append("compareProjects with a merge stage raised %s" % v["exc"])
+        return bad
+    if not v["inputs_unchanged"]:
+        bad.append("an input file was modified")
+    if v["new_outside"]:
+        bad.append("files written outside the merge stage: %s" % v["new_outside"][:3])
+    for ev in v["events"]:
+        tgt = ev[2] if ev[0] == "shutil.copyfile" and len(ev) >= 3 else (ev[1] if len(ev) > 1 else "")
+        if ev[0] != "shutil.copyfile" or len(ev) >= 3:
+            if tgt.startswith(v["root"]) and not tgt.startswith(v["stage"]):
+                bad.append("file system write outside the merge stage: %s" % ev)
+    staged = dict(v["staged"])
+    for rel, exp in c["expect"].items():
+        got = staged.pop(c["locale"] + "/" + rel, None)
+        if exp is None and got is not None:
+            bad.append("%s: staged although the format does not tolerate English" % rel)
+        elif exp is not None and got is None:
+            bad.append("%s: nothing staged at <merge stage>/%s/%s (staged: %s)" % (rel, c["locale"], rel, sorted(v["staged"])[:6]))
+        elif exp is not None and got != exp:
+            bad.append("%s: staged %r, expected %r" % (rel, got[:160], exp[:160]))
+    for rel in c["stale"]:
+        inside = rel.startswith(c["locale"] + "/")
+        got = staged.pop(rel, None)
+        if c["clobber"] and inside and got is not None:
+            bad.append("clobber: stale file %s survived" % rel)
+        if (not c["clobber"] or not inside) and got != "STALE":
+            bad.append("stale file %s outside the clobbered directory (or without clobber) was removed or changed" % rel)
+    if staged:
+        bad.append("unexpected files in the merge stage: %s" % sorted(staged)[:5])
+    if out is not None:
+        out.nontrivial.add(("projects", json.dumps(sorted(v["staged"].items()))))
+    return bad
+
+
+def run_projects(ctx, out):
+    """compareProjects with a merge stage: where things are staged (mergebase -> ProjectFiles merge matcher), the clobber
+    branch, add/remove through the project loop"""
+    cases = gen_project_cases(ctx)
+    res = pool.pmap("impl.merge", "impl_compare_projects", [[{k: v for k, v in c.items() if k != "expect"}] for c in cases],
+                    timeout=20.0, batch=2)
+    for c, r in zip(cases, res):
+        out.evaluations += 1
+        out.count("projects.%s" % ("clobber" if c["clobber"] else "keep"))
+        for msg in project_oracle(c, r, out)[:3]:
+            out.violations.append({"what": "compareProjects: %s" % msg, "input": c, "finding": None})
+            out.count("violation.NEW")
+
+
+# ===================================================================== round 4: the classes of the multi-cut theorems
+
+def theorem_multi_cases(rng, n):
+    """C04.multi_cut_reparses_properties_partial / multi_cut_reparses_dtd_partial: several records with errors and several
+    garbage lines, the l10n file in an order different from the reference's (so `compare` lists the skips out of file
+    order); staged text and entities are predicted by construction"""
+    out = []
+    for i in range(n):
+        fmt = "dtd" if i % 3 == 2 else "properties"
+        nrec = rng.randrange(3, 8)
+        keys = ["%s%d" % (rng.choice(["first", "second.label", "third-x", "k"]), j) for j in range(nrec)]
+        vals = [rng.choice([w for w in THM_WORDS if w]) for _ in keys]
+        status = [rng.choice(["ok", "ok", "bad", "missing"]) for _ in keys]
+        if "bad" not in status:
+            status[rng.randrange(nrec)] = "bad"
+        if fmt == "properties":
+            line = lambda k, v: "%s=%s" % (k, v)
+            for j in range(nrec):
+                if status[j] == "bad":
+                    vals[j] = "%S and %S"
+            badval = "%d und"
+        else:
+            line = lambda k, v: '<!ENTITY %s "%s">' % (k, v)
+            vals = [v.replace("&", "and").replace("%", "pct") for v in vals]
+            badval = "a < b"
+        ref = "".join(line(k, v) + "\n" for k, v in zip(keys, vals))
+        order = [j for j in range(nrec) if status[j] != "missing"]
+        rng.shuffle(order)
+        items = [("bad", j) if status[j] == "bad" else ("ok", j) for j in order]
+        if fmt == "properties":
+            # garbage lines: never two in a row, each followed by a record or the end of the file
+            pos = 0
+            while pos <= len(items):
+                if rng.random() < 0.35 and (pos == 0 or items[pos - 1][0] != "garb"):
+                    items.insert(pos, ("garb", rng.choice(["garbage", "just some words without separator", "%%%"])))
+                    pos += 1
+                pos += 1
+        lval = lambda j: ("L " + vals[j]).rstrip()
+        l10n, kept, ents, refs = "", "", [], []
+        for kind, x in items:
+            if kind == "garb":
+                l10n += x + "\n"
+            elif kind == "bad":
+                l10n += line(keys[x], badval) + "\n"
+                kept += "\n"
+                refs.append(line(keys[x], vals[x]) + "\n")
+            else:
+                l10n += line(keys[x], lval(x)) + "\n"
+                kept += line(keys[x], lval(x)) + "\n"
+                ents.append([keys[x], lval(x)])
+        ms = [line(keys[j], vals[j]) + "\n" for j in range(nrec) if status[j] == "missing"]
+        tail_ents = [[keys[j], vals[j]] for j in range(nrec) if status[j] == "missing"] + \
+                    [[keys[x], vals[x]] for kind, x in items if kind == "bad"]
+        out.append({"fmt": fmt, "ref": ref, "l10n": l10n, "mode": "compare", "tag": "thm-multi-" + fmt,
+                    "expect_exact": {"staged": kept + "\n" + "".join(ms) + "".join(refs), "entities": ents + tail_ents,
+                                     "nskips": sum(1 for kind, _ in items if kind != "ok")}})
+    return out
+
+
+def check_expect_exact(case, v, merged, mp):
+    exp = case["expect_exact"]
+    bad = []
+    got_text = merged.encode("latin-1").decode("utf-8", "replace")
+    if got_text != exp["staged"]:
+        bad.append(("theorem class (several cuts): staged text %r differs from the predicted %r" % (got_text[:300], exp["staged"][:300]), None))
+        return bad
+    got = [[e[0], e[1]] for e in mp["entities"]]
+    if got != exp["entities"] or mp["junk"]:
+        bad.append(("theorem class (several cuts): staged text parses to %r junk %r, predicted %r without junk" % (got, mp["junk"], exp["entities"]), None))
+    return bad
+
+
+
 def run(ctx):
     out = Outcome()
     out.rule = ("per format: clean reference printed from 1-6 records (some with printf/XML/attribute-bearing values); localization derived by "
                 "keep/re-value/break/drop/reorder/obsolete edits, optional junk line, 20% additionally with 1-2 raw character mutations; "
                 "plus missing-file and unknown-type cases; non-trivial = the merge call had at least one skip or missing entry; distinct = "
-                "distinct (format, staged bytes)")
+                "distinct (format, staged bytes). Round 4 streams: the same pairs as BYTES with CRLF / CR / mixed endings / BOM / ill-formed UTF-8 / Latin-1 / "
+                "truncated sequence at EOF / NUL / encoded surrogate (half of them clean); comparisons with quiet 0-4 and per-key filter verdicts "
+                "(error/warning/ignore, one or two observers, filter=None) each also run with quiet 0; direct calls of merge() with every capability value 0-7, "
+                "arbitrary / unsorted / overlapping / None spans on such byte files; raw byte strings through readFile; compareProjects on a temp tree with a merge "
+                "stage, stale files and clobber on/off; several-cut theorem classes (.properties, .dtd) with predicted staged text")
     cases = gen_cases(ctx)
     res = pool.pmap("impl.merge", "impl_compare_merge",
                     [[c["fmt"], c["ref"], c["l10n"], c["mode"]] for c in cases], timeout=10.0, batch=8)
@@ -430,6 +1101,12 @@ def run(ctx):
             if staged(e) != staged(m):
                 out.disagreements.append({"op": "merge", "case": cases[i], "impl": e[:300], "model": m[:300]})
     out.contracts["merge_model_replays"] = len(lines)
+    run_special(ctx, out)
+    run_bytes(ctx, out)
+    run_quiet(ctx, out)
+    run_direct(ctx, out)
+    run_decode(ctx, out)
+    run_projects(ctx, out)
     return out
 
 
@@ -438,9 +1115,31 @@ def classify(v):
 
 
 def replay(payload):
+    """re-runs the oracle of the stream a stored input came from"""
     res = []
     for v in payload.get("violations", []):
         c = v["input"]
-        r = pool.pmap("impl.merge", "impl_compare_merge", [[c["fmt"], c["ref"], c["l10n"], c["mode"]]], timeout=20.0)[0]
-        res.append({"input": c, "oracle": [m for m, _ in oracle(c, r) if m != "PRECONDITION"]})
+        if "files" in c:                                     # compareProjects
+            r = pool.pmap("impl.merge", "impl_compare_projects", [[{k: x for k, x in c.items() if k != "expect"}]], timeout=30.0)[0]
+            res.append({"input": c, "oracle": project_oracle(c, r)})
+            continue
+        if "caps" in c:                                      # direct call of merge()
+            r = pool.pmap("impl.merge", "impl_merge_direct",
+                          [[c["fmt"], c["caps"], c["l10n"], c["ref"], c["skips"], c["missing"], c["with_merge"]]], timeout=20.0)[0]
+            res.append({"input": c, "oracle": direct_oracle(c, r["r"]) if "r" in r else ["adapter raised %s" % r.get("exc")]})
+            continue
+        opts = dict(c.get("opts") or {})
+        if "quiet" in c:
+            opts.update({"quiet": c["quiet"], "verdicts": c["verdicts"]})
+            if "file_verdict" in c:
+                opts["file_verdict"] = c["file_verdict"]
+            c = dict(c)
+            c["required"] = {keystr(k) for k in c.get("keys", []) if key_verdict(c, k) == "error"}
+        r = pool.pmap("impl.merge", "impl_compare_merge",
+                      [[c["fmt"], c["ref"], c["l10n"], c["mode"], bool(c.get("bytes")), True, opts]], timeout=20.0)[0]
+        if c.get("tag") in ("ref-unreadable", "l10n-unreadable", "add-ref-unreadable"):
+            msgs = ["raised %s" % r["exc"]] if "exc" in r else generic_fs_oracle(r["r"])
+            res.append({"input": v["input"], "oracle": msgs})
+            continue
+        res.append({"input": v["input"], "oracle": [m for m, _ in oracle(c, r) if m != "PRECONDITION"]})
     return {"violates": any(r["oracle"] for r in res), "cases": res}
